@@ -160,6 +160,7 @@ func ruleR34(c *Ctx) {
 		c.r.bad("R34", "generator output name", "cmd/go-art/main.go", fmt.Sprintf("generator writes %q but go:generate formats %q", outFile, outName), P)
 	}
 	c.r.ok("R34", "generator shape", "cmd/go-art/main.go", fmt.Sprintf("table of %d constant rows, template %s, output %s", len(table), tmplName, outFile), P)
+	c.generatorOutputPath(fset, mf)
 
 	// (3) render + format + compare
 	tsrc, err := c.L.readFile(filepath.Join(genDir, tmplName))
@@ -242,4 +243,208 @@ func ruleR34(c *Ctx) {
 			fmt.Sprintf("generated code and template disagree in %s (checked-in %s): template renders %q, %s has %q", wn[i], hn[i], w, outFile, h), P)
 	}
 	c.r.floor("R34", 3+len(table), "generator checks", P)
+}
+
+// generatorOutputPath: what Execute writes reaches the output file. In the function that calls
+// tmpl.Execute(w, …): w is the opened file, or a bufio.Writer on it that is flushed after Execute
+// and before the file is closed – explicit statements run in order, deferred calls after them in
+// reverse order of registration; and the error of Execute ends the program (otherwise a template
+// error leaves a truncated file behind exit status 0). A generator that drops the tail of its
+// output makes the checked-in file differ from what the generator produces (C19) although the
+// rendering of the template (this rule's part 3) is unchanged.
+func (c *Ctx) generatorOutputPath(fset *token.FileSet, mf *ast.File) {
+	const P = "C19"
+	pos := func(p token.Pos) string {
+		q := fset.Position(p)
+		return fmt.Sprintf("cmd/go-art/main.go:%d", q.Line)
+	}
+	var fn *ast.FuncDecl
+	var exec *ast.CallExpr
+	for _, d := range mf.Decls {
+		fd, ok := d.(*ast.FuncDecl)
+		if !ok || fd.Body == nil {
+			continue
+		}
+		ast.Inspect(fd.Body, func(n ast.Node) bool {
+			if call, ok := n.(*ast.CallExpr); ok {
+				if sel, ok := call.Fun.(*ast.SelectorExpr); ok && (sel.Sel.Name == "Execute" || sel.Sel.Name == "ExecuteTemplate") && len(call.Args) >= 2 {
+					fn, exec = fd, call
+				}
+			}
+			return true
+		})
+	}
+	if exec == nil {
+		c.r.undecided("R34", "generator output path", "cmd/go-art/main.go", "no call of Execute found", P)
+		return
+	}
+	wID, _ := ast.Unparen(exec.Args[0]).(*ast.Ident)
+	if wID == nil {
+		c.r.undecided("R34", "generator output path", pos(exec.Pos()), "the writer passed to Execute is not a variable", P)
+		return
+	}
+	// definitions: which variable is the file (os.OpenFile / os.Create), which a bufio writer on it
+	fileVar, bufOf := "", map[string]string{}
+	ast.Inspect(fn.Body, func(n ast.Node) bool {
+		as, ok := n.(*ast.AssignStmt)
+		if !ok || len(as.Rhs) != 1 {
+			return true
+		}
+		call, ok := ast.Unparen(as.Rhs[0]).(*ast.CallExpr)
+		if !ok {
+			return true
+		}
+		sel, ok := call.Fun.(*ast.SelectorExpr)
+		if !ok {
+			return true
+		}
+		lhs, _ := as.Lhs[0].(*ast.Ident)
+		if lhs == nil {
+			return true
+		}
+		switch sel.Sel.Name {
+		case "OpenFile", "Create":
+			fileVar = lhs.Name
+		case "NewWriter", "NewWriterSize":
+			if pk, ok := sel.X.(*ast.Ident); ok && pk.Name == "bufio" && len(call.Args) >= 1 {
+				if a, ok := ast.Unparen(call.Args[0]).(*ast.Ident); ok {
+					bufOf[lhs.Name] = a.Name
+				}
+			}
+		}
+		return true
+	})
+	// the error of Execute is fatal
+	errFatal := false
+	var stmts []ast.Stmt = fn.Body.List
+	for i, st := range stmts {
+		holds := false
+		ast.Inspect(st, func(n ast.Node) bool {
+			if n == ast.Node(exec) {
+				holds = true
+			}
+			return true
+		})
+		if !holds {
+			continue
+		}
+		fatalIn := func(b *ast.BlockStmt) bool {
+			f := false
+			ast.Inspect(b, func(n ast.Node) bool {
+				if call, ok := n.(*ast.CallExpr); ok {
+					switch t := call.Fun.(type) {
+					case *ast.Ident:
+						if t.Name == "panic" {
+							f = true
+						}
+					case *ast.SelectorExpr:
+						if strings.HasPrefix(t.Sel.Name, "Fatal") || t.Sel.Name == "Exit" || strings.HasPrefix(t.Sel.Name, "Panic") {
+							f = true
+						}
+					}
+				}
+				return true
+			})
+			return f
+		}
+		if is, ok := st.(*ast.IfStmt); ok && fatalIn(is.Body) { // if err := Execute(); err != nil { fatal }
+			errFatal = true
+		}
+		if i+1 < len(stmts) {
+			if is, ok := stmts[i+1].(*ast.IfStmt); ok && fatalIn(is.Body) {
+				errFatal = true
+			}
+		}
+	}
+	if errFatal {
+		c.r.ok("R34", "generator stops on a template error", pos(exec.Pos()), "the error of Execute ends the program", P)
+	} else {
+		c.r.bad("R34", "generator stops on a template error", pos(exec.Pos()), "the error of Execute is not tested by a branch that ends the program: a failing template leaves a truncated output file and exit status 0", P)
+	}
+	key := "generator output reaches the file"
+	w := wID.Name
+	if w == fileVar && fileVar != "" {
+		c.r.ok("R34", key, pos(exec.Pos()), "Execute writes to the opened file itself", P)
+		return
+	}
+	target, buffered := bufOf[w]
+	if !buffered {
+		c.r.undecided("R34", key, pos(exec.Pos()), "Execute writes to "+w+", which is neither the opened file nor a bufio.Writer on it", P)
+		return
+	}
+	// order of events at the end of the function: explicit statements, then deferred calls in
+	// reverse order of registration
+	type ev struct {
+		what string // "flush" | "close" | "exec"
+		p    token.Pos
+	}
+	var seq, deferred []ev
+	classify := func(call *ast.CallExpr) (string, bool) {
+		if call == exec {
+			return "exec", true
+		}
+		sel, ok := call.Fun.(*ast.SelectorExpr)
+		if !ok {
+			return "", false
+		}
+		x, _ := ast.Unparen(sel.X).(*ast.Ident)
+		if x == nil {
+			return "", false
+		}
+		switch {
+		case sel.Sel.Name == "Flush" && x.Name == w:
+			return "flush", true
+		case sel.Sel.Name == "Close" && x.Name == target:
+			return "close", true
+		}
+		return "", false
+	}
+	for _, st := range stmts {
+		if d, ok := st.(*ast.DeferStmt); ok {
+			var evs []ev
+			ast.Inspect(d.Call, func(n ast.Node) bool {
+				if call, ok := n.(*ast.CallExpr); ok {
+					if k, ok := classify(call); ok {
+						evs = append(evs, ev{k, call.Pos()})
+					}
+				}
+				return true
+			})
+			deferred = append(deferred, evs...)
+			continue
+		}
+		ast.Inspect(st, func(n ast.Node) bool {
+			if call, ok := n.(*ast.CallExpr); ok {
+				if k, ok := classify(call); ok {
+					seq = append(seq, ev{k, call.Pos()})
+				}
+			}
+			return true
+		})
+	}
+	for i := len(deferred) - 1; i >= 0; i-- {
+		seq = append(seq, deferred[i])
+	}
+	state := "" // after exec: waiting for flush
+	for _, e := range seq {
+		switch e.what {
+		case "exec":
+			state = "written"
+		case "flush":
+			if state == "written" {
+				state = "flushed"
+			}
+		case "close":
+			if state == "written" {
+				c.r.bad("R34", key, pos(e.p), fmt.Sprintf("%s.Close() runs before %s.Flush() (deferred calls run after the explicit statements, in reverse order): what is still in the buffer is written to a closed file and the error is lost – the generator exits 0 and the tail of the output is missing", target, w), P)
+				return
+			}
+		}
+	}
+	switch state {
+	case "flushed":
+		c.r.ok("R34", key, pos(exec.Pos()), fmt.Sprintf("%s is a bufio.Writer on %s and is flushed after Execute, before %s is closed", w, target, target), P)
+	default:
+		c.r.bad("R34", key, pos(exec.Pos()), fmt.Sprintf("%s is a bufio.Writer on %s and is never flushed after Execute: the tail of the output stays in the buffer", w, target), P)
+	}
 }
